@@ -171,6 +171,9 @@ func (s *publisherServer) UpdateTopic(
 	ctx context.Context,
 	req *pubsubpb.UpdateTopicRequest,
 ) (*pubsubpb.Topic, error) {
+	if req.Topic == nil {
+		return nil, status.Error(codes.InvalidArgument, "Missing topic")
+	}
 	if !isValidTopicName(req.Topic.Name) {
 		return nil, status.Errorf(
 			codes.InvalidArgument,
